@@ -14,6 +14,7 @@ func RequiredArguments() Rule {
 		}
 		walker.RegisterEnterDocumentVisitor(&visitor)
 		walker.RegisterEnterFieldVisitor(&visitor)
+		walker.RegisterEnterDirectiveVisitor(&visitor)
 	}
 }
 
@@ -48,6 +49,36 @@ func (r *requiredArgumentsVisitor) EnterField(ref int) {
 
 		if r.operation.ArgumentValue(argument).Kind == ast.ValueKindNull {
 			r.StopWithExternalErr(operationreport.ErrArgumentOnFieldMustNotBeNull(name, fieldName))
+			return
+		}
+	}
+}
+
+// EnterDirective reports a directive that is used without an argument its definition requires
+// (non-null type and no default value), e.g. @include without `if`.
+func (r *requiredArgumentsVisitor) EnterDirective(ref int) {
+	directiveName := r.operation.DirectiveNameBytes(ref)
+	directiveDefinition, exists := r.definition.DirectiveDefinitionByNameBytes(directiveName)
+	if !exists || !r.definition.DirectiveDefinitions[directiveDefinition].HasArgumentsDefinitions {
+		// undefined directives are reported by DirectivesAreDefined
+		return
+	}
+
+	for _, i := range r.definition.DirectiveDefinitions[directiveDefinition].ArgumentsDefinition.Refs {
+		if r.definition.InputValueDefinitionArgumentIsOptional(i) {
+			continue
+		}
+
+		name := r.definition.InputValueDefinitionNameBytes(i)
+
+		value, exists := r.operation.DirectiveArgumentValueByName(ref, name)
+		if !exists {
+			r.StopWithExternalErr(operationreport.ErrArgumentRequiredOnDirective(name, directiveName))
+			return
+		}
+
+		if value.Kind == ast.ValueKindNull {
+			r.StopWithExternalErr(operationreport.ErrArgumentOnDirectiveMustNotBeNull(name, directiveName))
 			return
 		}
 	}
